@@ -62,6 +62,27 @@ def build_crate(crate, features):
         # registry index would otherwise refuse to select for newly added dependencies
         with open(lock_src) as f, open(lock_dst, "w") as g:
             g.write(f.read())
+        # never trust mtimes alone: if the generated sources differ from what the last successful build
+        # of this crate saw, bump their mtime so that cargo rebuilds them
+        import hashlib
+        gen_dirs = [os.path.join(HARNESS_WS, crate, "src", "gen")]
+        h = hashlib.sha256()
+        files = []
+        for gd in gen_dirs:
+            for root, _, fns in os.walk(gd):
+                for fn in sorted(fns):
+                    fp = os.path.join(root, fn)
+                    files.append(fp)
+                    with open(fp, "rb") as f:
+                        h.update(fp.encode() + b"\0" + f.read())
+        h.update(",".join(sorted(features or [])).encode())
+        digest = h.hexdigest()
+        stamp = os.path.join(TARGET, f".genhash-{crate}")
+        last = open(stamp).read() if os.path.exists(stamp) else ""
+        if last != digest:
+            now = time.time()
+            for fp in files:
+                os.utime(fp, (now, now))
         cmd = ["cargo", "build", "--offline", "-p", crate]
         if features:
             cmd += ["--features", ",".join(features)]
@@ -73,6 +94,8 @@ def build_crate(crate, features):
             tail = "\n".join(p.stderr.splitlines()[-40:])
             # a transplanted body that no longer compiles against the shims is an encoding failure
             raise Inconclusive(f"harness crate {crate} does not build against /repo's current source:\n{tail}")
+        with open(stamp, "w") as f:
+            f.write(digest)
         # copy the binary so that a later rebuild with other features does not race with a running check
         src = os.path.join(TARGET, "debug", crate)
         fd, dst = tempfile.mkstemp(prefix=f"{crate}-", dir=TARGET)
